@@ -251,13 +251,16 @@ func NewDateRangeWithNow() DateRange {
 	return NewDateRange(start, end)
 }
 
-func (date Date) safeParse(s string) time.Time {
+// safeParse returns the zero time and false if s cannot be parsed. The zero
+// time on its own does not mean that the parse failed because it is also the
+// first day of the year 1.
+func (date Date) safeParse(s string) (time.Time, bool) {
 	d, err := time.Parse("_2 1 2006", s)
 	if err != nil {
-		return time.Time{}
+		return time.Time{}, false
 	}
 
-	return d
+	return d, true
 }
 
 // Time returns the minimum or maximum (depending on IsEndOfRange)
@@ -283,11 +286,11 @@ func (date Date) Time() time.Time {
 		// represent the start of the year 0.
 	}
 
-	result := date.safeParse(d)
+	result, ok := date.safeParse(d)
 
 	// If the safeParse could not parse the date it will return a zero date.
 	// Make sure we don't try to adjust the zero date.
-	if date.IsEndOfRange && !result.IsZero() {
+	if date.IsEndOfRange && ok {
 		switch {
 		case date.Day != 0:
 			result = result.AddDate(0, 0, 1)
